@@ -285,6 +285,9 @@ func (g *gen) makeOps(ntx, nops, nbulky, nchain int) OpLine {
 	if nchain > 0 {
 		return g.chainOps(ntx, nchain)
 	}
+	if nbulky > 0 {
+		return g.bulkyOps(ntx, nbulky)
+	}
 	for len(ln.Ops) < nops {
 		k := r.Intn(100)
 		switch {
@@ -367,6 +370,39 @@ func (g *gen) chainOps(ntx, nchain int) OpLine {
 	fill(3)
 	add(Op{A: "SaveLoad"})
 	add(Op{A: "MineListing", K: -1})
+	return ln
+}
+
+// bulkyOps: the bulky transactions enter the pool in order (each chain's links after their parents) with
+// unrelated traffic in between, no blocks: the pool passes 11 MB and the size-limit eviction fires; then
+// blocks from the listing, a reorganisation, save/load, and the evicted ones are offered again.
+func (g *gen) bulkyOps(ntx, nbulky int) OpLine {
+	r := g.rng
+	ln := OpLine{Obs: []int{1, 4, 1000}[r.Intn(3)]}
+	add := func(o Op) { ln.Ops = append(ln.Ops, o) }
+	for i := 0; i < nbulky; i++ {
+		add(Op{A: "Submit", T: firstBulky + i, Mode: []string{"net", "net", "trusted", "local"}[r.Intn(4)]})
+		switch r.Intn(8) {
+		case 0:
+			add(Op{A: "Submit", T: firstTx + r.Intn(ntx), Mode: "net"})
+		case 1:
+			add(Op{A: "Tick"})
+		case 2:
+			add(Op{A: "Observe"})
+		}
+	}
+	add(Op{A: "Observe"})
+	add(Op{A: "Tick"})
+	add(Op{A: "SaveLoad"})
+	add(Op{A: "MineListing", K: -1})
+	add(Op{A: "MineListing", K: 5})
+	add(Op{A: "Reorg", D: 1 + r.Intn(2), Blks: [][]int{{firstBulky, firstBulky + 1, firstBulky + 6}, {firstBulky + 2}}})
+	for i := 0; i < nbulky; i += 1 + r.Intn(3) {
+		add(Op{A: "Submit", T: firstBulky + i, Mode: "net"})
+	}
+	add(Op{A: "Expire", Txs: []int{firstBulky + 20 + r.Intn(20)}})
+	add(Op{A: "MineListing", K: -1})
+	add(Op{A: "Observe"})
 	return ln
 }
 
